@@ -200,6 +200,11 @@ def main():
         if not bad and ok:
             chk.count("compiler_output_programs")
             chk.held(h(j["hex"]), sample={"compiled_hex": j["hex"][:120] + "..."} if j["id"] % 97 == 0 else None)
+    if not quick:
+        # sanitizer lane: Miri on encode/decode round trips (the flat codec does manual bit arithmetic)
+        import lanes
+
+        lanes.miri(chk, "C08", "codec", [chk.seed * 100 + i for i in range(16)], 40)
     chk.count("builtins_covered", len([x for x in feats if x.startswith("b:")]))
     chk.count("constant_types_covered", len([x for x in feats if x.startswith("t:")]))
     chk.assumptions = [
